@@ -82,7 +82,7 @@ func stubStrictNewVersion(s string) (*semver.Version, error) {
 var stubConstraintMin *semver.Version
 
 func stubNewConstraint(c string) (*semver.Constraints, error) {
-	stubConstraintMin = nil
+	stubConstraintMin, stubConstraintStrict, stubConstraintExact = nil, false, false
 	switch {
 	case c == "*":
 		return &semver.Constraints{}, nil
@@ -92,6 +92,13 @@ func stubNewConstraint(c string) (*semver.Constraints, error) {
 			return nil, err
 		}
 		stubConstraintMin = v
+		return &semver.Constraints{}, nil
+	case strings.HasPrefix(c, ">"): // strictly greater (not used by helm itself; here so that a change to this form is judged on its meaning)
+		v, err := stubNewVersion(c[1:])
+		if err != nil {
+			return nil, err
+		}
+		stubConstraintMin, stubConstraintStrict = v, true
 		return &semver.Constraints{}, nil
 	default:
 		// an exact version used as a constraint: "=V"
@@ -105,7 +112,7 @@ func stubNewConstraint(c string) (*semver.Constraints, error) {
 	}
 }
 
-var stubConstraintExact bool
+var stubConstraintExact, stubConstraintStrict bool
 
 func stubConstraintCheck(cs semver.Constraints, v *semver.Version) bool {
 	if stubConstraintExact {
@@ -116,6 +123,9 @@ func stubConstraintCheck(cs semver.Constraints, v *semver.Version) bool {
 	}
 	if stubConstraintMin == nil {
 		return true
+	}
+	if stubConstraintStrict {
+		return v.GreaterThan(stubConstraintMin)
 	}
 	return !v.LessThan(stubConstraintMin)
 }
